@@ -54,6 +54,10 @@ func genC11(x *Ctx) *c11Scen {
 		tp.Repeat(1, 4, 550, func(k int) {
 			rid++
 			r := RouteSpec{ID: rid, Method: []string{"GET", "POST"}[pairs[k]%2], Path: c11Subs[pairs[k]/2]}
+			if r.Method == "POST" && tp.Chance(60) {
+				// an extension method, spelled the way the application spells it (method tokens are case-sensitive)
+				r.Method = []string{"purge", "Report"}[tp.G(2)]
+			}
 			sp.Routes = append(sp.Routes, r)
 			if tp.Chance(150) {
 				// the same method and path again with another representation: legal, and one RemoveRoute
@@ -235,6 +239,9 @@ func c11Probes(sc *c11Scen) []Probe {
 					add("GET", p)
 					add("GET", p+"/")
 					add("POST", p)
+					if r.Method != "GET" && r.Method != "POST" {
+						add(r.Method, p)
+					}
 				}
 				add("GET", full+"/extra")
 			}
